@@ -1,6 +1,1113 @@
-//! C04 — stub: correspondence harness not built yet.
+//! C04 — merging never changes the logical content of the index.
+//!
+//! Translation validation of every merge the harness performs: canonical dump (`segdump`) of the
+//! source segments before, of the merged segment after; expected = concatenation of the live
+//! docs in source order, computed here AND by the Lean model (`mergeSpec`, `mergeModel`).
+//! Independently, after every publish the whole index is compared document by document (stored
+//! bytes, norms, fast values, every term with tf and positions) with a reference index that is
+//! never merged and never sees a delete.
+//! Schedules: the `VDir` hook pauses the merge thread at its k-th storage operation while the
+//! main thread commits deletes / rolls back / deletes all / merges / garbage-collects.
+use crate::dirs::{OpKind, OpRec, VDir};
+use crate::rng::Rng;
+use crate::segdump::{dump_segment, Logical, SegDump};
 use crate::Ctx;
+use serde_json::{json, Value};
+use std::collections::{BTreeMap, BTreeSet, HashMap};
+use std::net::Ipv6Addr;
+use std::panic::{catch_unwind, AssertUnwindSafe};
+use std::sync::{Arc, Condvar, Mutex};
+use std::time::Duration;
+use tantivy::directory::RamDirectory;
+use tantivy::index::SegmentId;
+use tantivy::indexer::{LogMergePolicy, NoMergePolicy};
+use tantivy::schema::{
+    BytesOptions, DateOptions, Facet, FacetOptions, Field, IndexRecordOption, IpAddrOptions, JsonObjectOptions,
+    NumericOptions, Schema, TextFieldIndexing, TextOptions, FAST, INDEXED, STORED, STRING, TEXT,
+};
+use tantivy::{DateTime, Index, IndexSettings, IndexWriter, SegmentMeta, SegmentReader, TantivyDocument, Term};
+
+pub const WORDS: [&str; 28] = [
+    "alpha", "beta", "gamma", "delta", "epsilon", "zeta", "eta", "theta", "iota", "kappa", "lambda", "mu", "nu",
+    "xi", "omicron", "pi", "rho", "sigma", "tau", "upsilon", "phi", "chi", "psi", "omega", "über", "naïve", "日本", "x",
+];
+
+#[derive(Clone)]
+pub struct Fields {
+    pub id: Field,
+    pub grp: Field,
+    pub title: Field,
+    pub body: Field,
+    pub freq: Field,
+    pub tag: Field,
+    pub num: Field,
+    pub score: Field,
+    pub flag: Field,
+    pub date: Field,
+    pub ip: Field,
+    pub bytes: Field,
+    pub facet: Field,
+    pub js: Field,
+}
+
+pub fn schema() -> (Schema, Fields) {
+    schema_with(|_| {})
+}
+
+/// the C04 schema plus whatever `extra` adds (C17 adds the sort field)
+pub fn schema_with(extra: impl FnOnce(&mut tantivy::schema::SchemaBuilder)) -> (Schema, Fields) {
+    let mut sb = Schema::builder();
+    let id = sb.add_u64_field("id", FAST | INDEXED | STORED);
+    let grp = sb.add_u64_field("grp", FAST | INDEXED);
+    let title = sb.add_text_field("title", TEXT | STORED);
+    let body = sb.add_text_field("body", TEXT);
+    let freq = sb.add_text_field(
+        "freq",
+        TextOptions::default().set_indexing_options(
+            TextFieldIndexing::default().set_tokenizer("default").set_index_option(IndexRecordOption::WithFreqs),
+        ),
+    );
+    let tag = sb.add_text_field("tag", STRING | FAST | STORED);
+    let num = sb.add_i64_field("num", NumericOptions::default().set_fast().set_indexed().set_fieldnorm());
+    let score = sb.add_f64_field("score", FAST | STORED);
+    let flag = sb.add_bool_field("flag", FAST | INDEXED);
+    let date = sb.add_date_field("date", DateOptions::default().set_fast().set_indexed().set_stored());
+    let ip = sb.add_ip_addr_field("ip", IpAddrOptions::default().set_fast().set_indexed().set_stored());
+    let bytes = sb.add_bytes_field("bytes", BytesOptions::default().set_fast().set_indexed().set_stored());
+    let facet = sb.add_facet_field("facet", FacetOptions::default().set_stored());
+    let js = sb.add_json_field("js", JsonObjectOptions::from(TEXT | STORED).set_fast(None));
+    extra(&mut sb);
+    (sb.build(), Fields { id, grp, title, body, freq, tag, num, score, flag, date, ip, bytes, facet, js })
+}
+
+fn words(rng: &mut Rng, n: usize, vocab: usize) -> String {
+    (0..n).map(|_| WORDS[rng.usize_below(vocab.min(WORDS.len()))]).collect::<Vec<_>>().join(" ")
+}
+
+/// `marker`: a word that occurs only in documents of one batch (a term present in one source)
+pub fn gen_doc(rng: &mut Rng, f: &Fields, uid: u64, grp: u64, marker: &str) -> TantivyDocument {
+    let mut d = TantivyDocument::default();
+    d.add_u64(f.id, uid);
+    d.add_u64(f.grp, grp);
+    let vocab = 3 + rng.usize_below(25);
+    match rng.below(8) {
+        0 => {}
+        1 => d.add_text(f.title, ""),
+        _ => {
+            let n = 1 + rng.usize_below(10);
+            d.add_text(f.title, &words(rng, n, vocab));
+            if rng.chance(1, 5) {
+                let n = 1 + rng.usize_below(4);
+                d.add_text(f.title, &words(rng, n, vocab)); // multi-valued text
+            }
+        }
+    }
+    let blen = match rng.below(10) { 0 => 0, 1 => 40 + rng.usize_below(60), 2 => 300 + rng.usize_below(200), _ => 1 + rng.usize_below(14) };
+    let mut body = words(rng, blen, vocab);
+    if rng.chance(1, 2) {
+        body.push(' ');
+        body.push_str(marker);
+    }
+    d.add_text(f.body, &body);
+    if rng.chance(2, 3) {
+        let n = 1 + rng.usize_below(8);
+        d.add_text(f.freq, &words(rng, n, 4));
+    }
+    for _ in 0..rng.below(4) {
+        d.add_text(f.tag, &format!("t{}", rng.below(6)));
+    }
+    for _ in 0..rng.below(3) {
+        d.add_i64(f.num, *rng.pick(&[i64::MIN, -1, 0, 1, 7, 1 << 40, i64::MAX]));
+    }
+    if rng.chance(2, 3) {
+        d.add_f64(f.score, *rng.pick(&[0.0, -0.0, 1.5, -2.25, f64::MAX, f64::MIN_POSITIVE, 1e300]));
+    }
+    if rng.chance(1, 2) {
+        d.add_bool(f.flag, rng.chance(1, 2));
+    }
+    if rng.chance(2, 3) {
+        d.add_date(f.date, DateTime::from_timestamp_secs(1_600_000_000 + (rng.below(5) as i64) * 86_400));
+    }
+    if rng.chance(1, 2) {
+        d.add_ip_addr(f.ip, Ipv6Addr::from((rng.below(4) as u128) << 64 | rng.below(3) as u128));
+    }
+    if rng.chance(1, 2) {
+        let n = rng.usize_below(5);
+        d.add_bytes(f.bytes, &rng.bytes(n)[..]);
+    }
+    if rng.chance(1, 2) {
+        d.add_facet(f.facet, Facet::from(&format!("/top{}/sub{}", rng.below(3), rng.below(3))[..]));
+    }
+    if rng.chance(2, 3) {
+        let mut o = serde_json::Map::new();
+        if rng.chance(2, 3) { let n = 1 + rng.usize_below(5); o.insert("a".into(), json!(words(rng, n, 6))); }
+        if rng.chance(1, 2) { o.insert("n".into(), json!(rng.below(5) as i64)); }
+        if rng.chance(1, 3) { o.insert("b".into(), json!(rng.chance(1, 2))); }
+        if rng.chance(1, 3) { o.insert("f".into(), json!(0.5 + rng.below(3) as f64)); }
+        if rng.chance(1, 3) { let n = 1 + rng.usize_below(3); o.insert("nested".into(), json!({"x": words(rng, n, 5), "k": [1, 2]})); }
+        let obj: BTreeMap<String, tantivy::schema::OwnedValue> =
+            o.into_iter().map(|(k, v)| (k, tantivy::schema::OwnedValue::from(v))).collect();
+        d.add_object(f.js, obj);
+    }
+    d
+}
+
+/// one document as it must look in every segment it ever lives in
+#[derive(Clone, Debug, PartialEq, Eq)]
+pub struct DocView {
+    pub payload: String,
+    pub terms: Vec<(Vec<u8>, u32, Vec<u32>)>,
+}
+
+pub fn uids_of(reader: &SegmentReader) -> Result<Vec<u64>, String> {
+    let col = reader.fast_fields().u64("id").map_err(|e| format!("id column: {e}"))?;
+    Ok((0..reader.max_doc()).map(|d| col.first(d).unwrap_or(u64::MAX)).collect())
+}
+
+pub fn doc_views(dump: &SegDump, uids: &[u64], alive: &[bool]) -> Vec<(u64, DocView)> {
+    let mut per_doc: Vec<Vec<(Vec<u8>, u32, Vec<u32>)>> = vec![vec![]; dump.max_doc as usize];
+    for (k, rows) in &dump.terms {
+        for (d, tf, pos) in rows {
+            per_doc[*d as usize].push((k.clone(), *tf, pos.clone()));
+        }
+    }
+    (0..dump.max_doc as usize)
+        .filter(|d| alive[*d])
+        .map(|d| (uids[d], DocView { payload: dump.payload[d].clone(), terms: std::mem::take(&mut per_doc[d]) }))
+        .collect()
+}
+
+/// reference index: same documents, one writer, never merged, never deleted from
+pub struct Reference {
+    index: Index,
+    writer: IndexWriter,
+    seen: BTreeSet<String>,
+    pub views: HashMap<u64, DocView>,
+}
+
+impl Reference {
+    pub fn new(schema: &Schema) -> Reference {
+        let index = Index::create(RamDirectory::create(), schema.clone(), IndexSettings::default()).unwrap();
+        let writer: IndexWriter = index.writer_with_num_threads(1, 15_000_000).unwrap();
+        writer.set_merge_policy(Box::new(NoMergePolicy));
+        Reference { index, writer, seen: BTreeSet::new(), views: HashMap::new() }
+    }
+    pub fn add(&mut self, doc: TantivyDocument) {
+        self.writer.add_document(doc).unwrap();
+    }
+    pub fn sync(&mut self) {
+        self.writer.commit().unwrap();
+        for seg in self.index.searchable_segments().unwrap() {
+            let id = seg.id().uuid_string();
+            if self.seen.insert(id) {
+                let r = SegmentReader::open(&seg).unwrap();
+                let d = dump_segment(&seg, &r, None).unwrap();
+                let u = uids_of(&r).unwrap();
+                for (uid, v) in doc_views(&d, &u, &d.alive) {
+                    self.views.insert(uid, v);
+                }
+            }
+        }
+    }
+}
+
+/// gate + pause machinery shared with the merge threads through the VDir hook
+#[derive(Default)]
+struct GateState {
+    /// pause the merge thread at its k-th pausable operation (schedule cases)
+    pause_at: Option<u64>,
+    seen: u64,
+    paused: bool,
+    resume: bool,
+    /// block merge threads when they open the merged segment's store for writing (policy cases)
+    gate: bool,
+    blocked: usize,
+    permits: usize,
+    meta_writes: u64,
+}
+
+#[derive(Clone)]
+struct Gate(Arc<(Mutex<GateState>, Condvar)>);
+
+fn pausable(rec: &OpRec) -> bool {
+    matches!(rec.kind, OpKind::OpenRead | OpKind::OpenWrite | OpKind::Write | OpKind::Flush | OpKind::Terminate)
+        && !rec.path.ends_with(".json")
+        && !rec.path.ends_with(".lock")
+}
+
+impl Gate {
+    fn new() -> Gate {
+        Gate(Arc::new((Mutex::new(GateState::default()), Condvar::new())))
+    }
+    fn install(&self, vdir: &VDir) {
+        let g = self.clone();
+        vdir.set_hook(Some(Arc::new(move |rec: &OpRec| g.on_op(rec))));
+    }
+    fn on_op(&self, rec: &OpRec) {
+        let (m, cv) = &*self.0;
+        let mut s = m.lock().unwrap();
+        if rec.kind == OpKind::AtomicWrite && rec.path == "meta.json" {
+            s.meta_writes += 1;
+            cv.notify_all();
+        }
+        if !rec.thread.starts_with("merge_thread") {
+            return;
+        }
+        if s.gate && rec.kind == OpKind::OpenWrite && rec.path.ends_with(".store") {
+            s.blocked += 1;
+            cv.notify_all();
+            let (mut s2, _) = cv.wait_timeout_while(s, Duration::from_secs(20), |s| s.permits == 0).unwrap();
+            if s2.permits > 0 {
+                s2.permits -= 1;
+            }
+            s2.blocked -= 1;
+            cv.notify_all();
+            return;
+        }
+        if let Some(k) = s.pause_at {
+            if pausable(rec) {
+                if s.seen == k {
+                    s.paused = true;
+                    s.pause_at = None;
+                    cv.notify_all();
+                    let (mut s2, _) = cv.wait_timeout_while(s, Duration::from_secs(20), |s| !s.resume).unwrap();
+                    s2.resume = false;
+                    s2.paused = false;
+                    s2.seen += 1;
+                    cv.notify_all();
+                    return;
+                }
+                s.seen += 1;
+            }
+        }
+    }
+    fn with<R>(&self, f: impl FnOnce(&mut GateState) -> R) -> R {
+        let (m, cv) = &*self.0;
+        let mut s = m.lock().unwrap();
+        let r = f(&mut s);
+        cv.notify_all();
+        r
+    }
+    /// wait until `pred` holds or the timeout expires; returns whether it holds
+    fn wait(&self, timeout: Duration, pred: impl Fn(&GateState) -> bool) -> bool {
+        let (m, cv) = &*self.0;
+        let s = m.lock().unwrap();
+        let (s, _) = cv.wait_timeout_while(s, timeout, |s| !pred(s)).unwrap();
+        pred(&s)
+    }
+}
+
+struct Env {
+    vdir: VDir,
+    index: Index,
+    writer: IndexWriter,
+    f: Fields,
+    reference: Reference,
+    gate: Gate,
+    grp_of: HashMap<u64, u64>,
+    next_uid: u64,
+    batch: u64,
+    /// sequential replay: live uids if everything so far were committed / as of the last commit
+    pending: BTreeSet<u64>,
+    committed: BTreeSet<u64>,
+    /// segment dumps by segment id (taken when the segment was first seen)
+    dumps: HashMap<String, (SegDump, Vec<u64>)>,
+    log: Vec<String>,
+}
+
+impl Env {
+    fn new(rng: &mut Rng) -> Env {
+        let (schema, f) = schema();
+        let vdir = VDir::new();
+        let mut settings = IndexSettings::default();
+        // small blocks: stores with >= 6 checkpoints take the stacking path of write_storable_fields
+        settings.docstore_blocksize = *rng.pick(&[16_384usize, 200, 50, 1_000]);
+        if rng.chance(1, 4) {
+            settings.docstore_compress_dedicated_thread = false;
+        }
+        let index = Index::create(vdir.clone(), schema.clone(), settings).unwrap();
+        let writer: IndexWriter = index.writer_with_num_threads(1, 15_000_000).unwrap();
+        writer.set_merge_policy(Box::new(NoMergePolicy));
+        let gate = Gate::new();
+        gate.install(&vdir);
+        Env {
+            vdir, index, writer, f, reference: Reference::new(&schema), gate, grp_of: HashMap::new(), next_uid: 1, batch: 0,
+            pending: BTreeSet::new(), committed: BTreeSet::new(), dumps: HashMap::new(), log: vec![],
+        }
+    }
+    fn add_docs(&mut self, rng: &mut Rng, n: usize) {
+        self.batch += 1;
+        let marker = format!("only{}", self.batch);
+        for _ in 0..n {
+            let uid = self.next_uid;
+            self.next_uid += 1;
+            let grp = rng.below(5);
+            let doc = gen_doc(rng, &self.f, uid, grp, &marker);
+            self.reference.add(doc.clone());
+            self.writer.add_document(doc).unwrap();
+            self.grp_of.insert(uid, grp);
+            self.pending.insert(uid);
+        }
+        self.log.push(format!("add {n}"));
+    }
+    fn delete_uid(&mut self, uid: u64) {
+        self.writer.delete_term(Term::from_field_u64(self.f.id, uid));
+        self.pending.remove(&uid);
+        self.log.push(format!("delete id={uid}"));
+    }
+    fn delete_grp(&mut self, grp: u64) {
+        self.writer.delete_term(Term::from_field_u64(self.f.grp, grp));
+        let gone: Vec<u64> = self.pending.iter().copied().filter(|u| self.grp_of[u] == grp).collect();
+        for u in gone {
+            self.pending.remove(&u);
+        }
+        self.log.push(format!("delete grp={grp}"));
+    }
+    fn commit(&mut self) {
+        self.writer.commit().unwrap();
+        self.committed = self.pending.clone();
+        self.reference.sync();
+        self.log.push("commit".into());
+    }
+    fn rollback(&mut self) {
+        self.writer.rollback().unwrap();
+        self.writer.set_merge_policy(Box::new(NoMergePolicy));
+        self.pending = self.committed.clone();
+        self.log.push("rollback".into());
+    }
+    fn searchable(&self) -> Vec<SegmentMeta> {
+        self.index.searchable_segment_metas().unwrap()
+    }
+    fn dump_meta(&self, meta: &SegmentMeta) -> Result<(SegDump, Vec<u64>), String> {
+        let seg = self.index.segment(meta.clone());
+        let r = SegmentReader::open(&seg).map_err(|e| format!("open segment: {e}"))?;
+        let d = dump_segment(&seg, &r, None)?;
+        let u = uids_of(&r)?;
+        Ok((d, u))
+    }
+    /// dump (and remember) every searchable segment
+    fn dump_searchable(&mut self) -> Result<Vec<(String, SegDump, Vec<u64>)>, String> {
+        let mut out = vec![];
+        for meta in self.searchable() {
+            let (d, u) = self.dump_meta(&meta)?;
+            self.dumps.insert(meta.id().uuid_string(), (d.clone(), u.clone()));
+            out.push((meta.id().uuid_string(), d, u));
+        }
+        Ok(out)
+    }
+}
+
+fn case_json(kind: &str, case_seed: u64, extra: Value) -> Value {
+    json!({"kind": kind, "case_seed": case_seed.to_string(), "params": extra})
+}
+
+/// O5: the whole published index, document by document, against the reference index
+fn check_index_content(ctx: &mut Ctx, env: &mut Env, expect: &BTreeSet<u64>, when: &str, case: &Value) -> bool {
+    check_index_content_alt(ctx, env, expect, None, when, case)
+}
+
+/// `alt`: a doc set predicted by the Lean updater model for a recorded finding, with its key
+fn check_index_content_alt(ctx: &mut Ctx, env: &mut Env, expect: &BTreeSet<u64>, alt: Option<(&BTreeSet<u64>, &str)>, when: &str, case: &Value) -> bool {
+    // a merge finishing right now may garbage-collect a source between reading meta.json and
+    // opening its files: re-read the segment list before calling a segment unreadable
+    let mut attempt = env.dump_searchable();
+    for _ in 0..4 {
+        if attempt.is_ok() {
+            break;
+        }
+        std::thread::sleep(Duration::from_millis(50));
+        attempt = env.dump_searchable();
+    }
+    let dumps = match attempt {
+        Ok(d) => d,
+        Err(e) => {
+            ctx.report.violation("oracle", "C04:segment-unreadable", format!("{when}: {e}"), case.clone());
+            return false;
+        }
+    };
+    let mut seen: BTreeSet<u64> = BTreeSet::new();
+    for (sid, d, u) in &dumps {
+        if let Err(e) = d.well_formed() {
+            ctx.report.violation("oracle", "C04:segment-ill-formed", format!("{when}: segment {sid}: {e}"), case.clone());
+            return false;
+        }
+        for (uid, v) in doc_views(d, u, &d.alive) {
+            if !seen.insert(uid) {
+                ctx.report.violation("oracle", "C04:duplicate-doc", format!("{when}: document id={uid} is live twice"), case.clone());
+                return false;
+            }
+            match env.reference.views.get(&uid) {
+                Some(rv) if *rv == v => {}
+                Some(rv) => {
+                    let what = if rv.payload != v.payload {
+                        let (a, b): (Vec<&str>, Vec<&str>) = (rv.payload.split('|').collect(), v.payload.split('|').collect());
+                        let j = (0..a.len().min(b.len())).find(|j| a[*j] != b[*j]).unwrap_or(0);
+                        ["stored fields", "field norms", "fast values"][j.min(2)].to_string()
+                    } else {
+                        let bad = rv.terms.iter().zip(v.terms.iter()).find(|(x, y)| x != y);
+                        format!("terms ({} vs {} terms; first difference {:?})", rv.terms.len(), v.terms.len(), bad.map(|(x, y)| (crate::model::hex(&x.0), x.1, x.2.len(), crate::model::hex(&y.0), y.1, y.2.len())))
+                    };
+                    let key = if rv.payload != v.payload { "C04:doc-payload-changed" } else { "C04:doc-terms-changed" };
+                    ctx.report.violation("oracle", key, format!("{when}: document id={uid} in segment {sid} differs from the never-merged reference: {what}"), case.clone());
+                    return false;
+                }
+                None => {
+                    ctx.report.violation("oracle", "C04:unknown-doc", format!("{when}: document id={uid} was never added"), case.clone());
+                    return false;
+                }
+            }
+        }
+    }
+    if seen != *expect {
+        let missing: Vec<&u64> = expect.difference(&seen).take(5).collect();
+        let extra: Vec<&u64> = seen.difference(expect).take(5).collect();
+        let mut key = if !extra.is_empty() { "C04:deleted-doc-visible" } else { "C04:live-doc-lost" };
+        if let Some((alt_set, alt_key)) = alt {
+            if *alt_set == seen {
+                key = alt_key;
+            }
+        }
+        ctx.report.violation("oracle", key, format!("{when}: published docs differ from the sequential replay: missing {missing:?} unexpected {extra:?} (expected {} docs, found {})", expect.len(), seen.len()), case.clone());
+        return false;
+    }
+    true
+}
+
+/// translation validation of one merge. `sources`: dumps in merge order with the alive set the
+/// merged segment must reflect; `merged`: dump of the merged segment as published.
+fn validate_merge(ctx: &mut Ctx, sources: &[(&SegDump, Vec<bool>)], merged: Option<&SegDump>, how: &str, case: &Value) -> bool {
+    let parts: Vec<Logical> = sources.iter().map(|(d, a)| d.logical_with(a)).collect();
+    let expected = Logical::concat(&parts);
+    let real = merged.map(|m| m.logical()).unwrap_or_default();
+    ctx.report.count_n("translation_validation:programs", 1);
+    ctx.report.count(&format!("merge:{how}"));
+    ctx.report.count(&format!("merge-sources:{}", sources.len()));
+    let any_deletes = sources.iter().any(|(_, a)| a.iter().any(|x| !*x));
+    ctx.report.count(if any_deletes { "mapping:stacked-with-deletes" } else { "mapping:stacked" });
+    if sources.iter().any(|(_, a)| !a.iter().any(|x| *x)) {
+        ctx.report.count("source:no-live-doc");
+    }
+    if expected.docs.is_empty() {
+        ctx.report.count("merge:empty-result");
+    }
+    let ndocs: usize = sources.iter().map(|(d, _)| d.max_doc as usize).sum();
+    let canon = format!("{how}|{}|{}", sources.iter().map(|(d, a)| format!("{}:{}", d.max_doc, a.iter().filter(|x| **x).count())).collect::<Vec<_>>().join(","), real.token().len());
+    ctx.report.case(&canon, sources.len() >= 2 || any_deletes);
+    let mut ok = true;
+    if let Some(diff) = real.diff(&expected) {
+        ctx.report.count_n("translation_validation:disagreements_checked", 1);
+        let key = if diff.starts_with("doc ") || diff.starts_with("number of live docs") { "C04:merged-docs-differ" } else { "C04:merged-postings-differ" };
+        ctx.report.violation("oracle", key, format!("{how} merge of {} sources ({} docs): merged segment (left) vs concatenation of the live source docs (right): {diff}", sources.len(), ndocs), case.clone());
+        ok = false;
+    }
+    if let Some(m) = merged {
+        if let Err(e) = m.well_formed() {
+            ctx.report.violation("oracle", "C04:merged-ill-formed", format!("{how} merge: {e}"), case.clone());
+            ok = false;
+        }
+    }
+    // the Lean model on the same sources
+    let nkeys: usize = sources.iter().map(|(d, _)| d.terms.len()).sum();
+    if nkeys * nkeys * sources.len().max(1) <= 40_000_000 {
+        let toks: Vec<String> = sources.iter().map(|(d, a)| d.token_with(a)).collect();
+        let spec = ctx.model.ask(&format!("C04 spec {}", toks.join(" ")));
+        let modl = ctx.model.ask(&format!("C04 model {}", toks.join(" ")));
+        let etok = expected.token();
+        if spec != etok {
+            ctx.report.violation("model", "C04:spec-vs-harness", format!("{how} merge: Lean mergeSpec differs from the harness's concatenation ({} vs {} chars)", spec.len(), etok.len()), case.clone());
+            ok = false;
+        }
+        let (m_logical, m_df) = match modl.rfind('/') {
+            Some(i) => (&modl[..i], &modl[i + 1..]),
+            None => (&modl[..], ""),
+        };
+        if m_logical != spec {
+            ctx.report.violation("model", "C04:model-vs-spec", format!("{how} merge: Lean mergeModel differs from mergeSpec"), case.clone());
+            ok = false;
+        }
+        if let Some(m) = merged {
+            if m.num_alive() == m.max_doc as usize {
+                let real_df: Vec<String> = m.doc_freq.values().map(|v| v.to_string()).collect();
+                let real_df = if real_df.is_empty() { "-".to_string() } else { real_df.join(",") };
+                if real_df != m_df {
+                    ctx.report.violation("model", "C04:doc-freq-mismatch", format!("{how} merge: doc_freq of the merged dictionary differs from the model's total_doc_freq"), case.clone());
+                    ok = false;
+                }
+                if real.token() != m_logical && ok {
+                    ctx.report.violation("model", "C04:model-vs-real", format!("{how} merge: merged segment differs from Lean mergeModel"), case.clone());
+                    ok = false;
+                }
+            }
+        }
+        ctx.report.count("model:asked");
+    } else {
+        ctx.report.count("model:skipped-too-large");
+    }
+    ok
+}
+
+fn alive_under(uids: &[u64], base_alive: &[bool], live: &BTreeSet<u64>) -> Vec<bool> {
+    uids.iter().zip(base_alive).map(|(u, a)| *a && live.contains(u)).collect()
+}
+
+fn seg_sizes(rng: &mut Rng) -> usize {
+    match rng.below(12) { 0 => 1, 1 => 2, 2 => 127 + rng.usize_below(4), 3 => 60 + rng.usize_below(80), _ => 1 + rng.usize_below(24) }
+}
+
+/// build `n` committed segments, then committed deletes of several shapes
+fn build_committed(rng: &mut Rng, env: &mut Env, n: usize) {
+    for _ in 0..n {
+        let k = seg_sizes(rng);
+        env.add_docs(rng, k);
+        env.commit();
+    }
+    match rng.below(6) {
+        0 => {}
+        1 => {
+            // all docs of one segment's worth of ids
+            let lo = 1 + rng.below(env.next_uid.max(2) - 1);
+            for u in lo..(lo + 6).min(env.next_uid) {
+                env.delete_uid(u);
+            }
+            env.commit();
+        }
+        2 => {
+            env.delete_grp(rng.below(5));
+            env.commit();
+        }
+        _ => {
+            let m = rng.usize_below(8);
+            for _ in 0..m {
+                let u = 1 + rng.below(env.next_uid.max(2) - 1);
+                env.delete_uid(u);
+            }
+            if rng.chance(1, 3) {
+                env.delete_grp(rng.below(5));
+            }
+            env.commit();
+        }
+    }
+}
+
+/// A. explicit merges of committed segments, validated one by one (also merges of merged segments)
+fn case_explicit(ctx: &mut Ctx, case_seed: u64) {
+    let mut rng = Rng(case_seed);
+    let case = case_json("explicit", case_seed, json!({}));
+    let mut env = Env::new(&mut rng);
+    let n = 1 + rng.usize_below(6);
+    build_committed(&mut rng, &mut env, n);
+    let committed = env.committed.clone();
+    if !check_index_content(ctx, &mut env, &committed, "before any merge", &case) {
+        return;
+    }
+    let rounds = 1 + rng.usize_below(3);
+    for round in 0..rounds {
+        let metas = env.searchable();
+        if metas.is_empty() {
+            break;
+        }
+        let mut ids: Vec<SegmentId> = metas.iter().map(|m| m.id()).collect();
+        ids.sort();
+        rng.shuffle(&mut ids);
+        let take = 1 + rng.usize_below(ids.len());
+        ids.truncate(take);
+        let before = env.dump_searchable().unwrap();
+        let srcs: Vec<(SegDump, Vec<u64>)> = ids.iter().map(|id| { let (_, d, u) = before.iter().find(|(s, _, _)| *s == id.uuid_string()).unwrap(); (d.clone(), u.clone()) }).collect();
+        let res = env.writer.merge(&ids).wait();
+        let merged_meta = match res {
+            Ok(m) => m,
+            Err(e) => {
+                ctx.report.violation("oracle", "C04:merge-failed", format!("explicit merge of {} committed segments failed: {e}", ids.len()), case.clone());
+                return;
+            }
+        };
+        let after = env.searchable();
+        let merged_dump = match &merged_meta {
+            Some(mm) => match after.iter().find(|m| m.id() == mm.id()) {
+                Some(m) => Some(env.dump_meta(m).unwrap().0),
+                None => {
+                    ctx.report.violation("oracle", "C04:merged-not-published", "merge returned a segment that is not in meta.json".into(), case.clone());
+                    return;
+                }
+            },
+            None => None,
+        };
+        if ids.iter().any(|id| after.iter().any(|m| m.id() == *id)) {
+            ctx.report.violation("oracle", "C04:source-still-published", "a merged source segment is still listed in meta.json".into(), case.clone());
+            return;
+        }
+        let sources: Vec<(&SegDump, Vec<bool>)> = srcs.iter().map(|(d, _)| (d, d.alive.clone())).collect();
+        let ok = validate_merge(ctx, &sources, merged_dump.as_ref(), "explicit-committed", &case);
+        if ctx.report.samples.len() < 2 {
+            ctx.report.sample(json!({"case": "explicit merge", "sources (max_doc:live)": srcs.iter().map(|(d, _)| format!("{}:{}", d.max_doc, d.num_alive())).collect::<Vec<_>>(), "merged_docs": merged_dump.as_ref().map(|m| m.max_doc), "terms": merged_dump.as_ref().map(|m| m.terms.len()), "round": round}));
+        }
+        if !ok || !check_index_content(ctx, &mut env, &committed, "after explicit merge", &case) {
+            return;
+        }
+    }
+}
+
+/// B. policy-triggered merges; the gate holds each merge thread until its sources are dumped
+fn case_policy(ctx: &mut Ctx, case_seed: u64) {
+    let mut rng = Rng(case_seed);
+    let case = case_json("policy", case_seed, json!({}));
+    let mut env = Env::new(&mut rng);
+    let mut policy = LogMergePolicy::default();
+    policy.set_min_num_segments(2 + rng.usize_below(2));
+    policy.set_min_layer_size(1 + rng.below(30) as u32);
+    if rng.chance(1, 2) {
+        policy.set_del_docs_ratio_before_merge(0.2);
+    }
+    env.writer.set_merge_policy(Box::new(policy));
+    env.gate.with(|s| s.gate = true);
+    let rounds = 3 + rng.usize_below(5);
+    for _ in 0..rounds {
+        let k = seg_sizes(&mut rng).min(60);
+        env.add_docs(&mut rng, k);
+        if rng.chance(1, 2) && env.next_uid > 2 {
+            let u = 1 + rng.below(env.next_uid - 1);
+            env.delete_uid(u);
+        }
+        if rng.chance(1, 6) {
+            env.delete_grp(rng.below(5));
+        }
+        env.commit();
+        // drain: validate every merge the policy started
+        loop {
+            let blocked = env.gate.wait(Duration::from_millis(120), |s| s.blocked > 0);
+            if !blocked {
+                break;
+            }
+            let before = env.dump_searchable().unwrap();
+            let writes0 = env.gate.with(|s| { s.permits += 1; s.meta_writes });
+            if !env.gate.wait(Duration::from_secs(30), |s| s.meta_writes > writes0) {
+                ctx.report.notes.push("policy merge did not publish within 30 s".into());
+                break;
+            }
+            // the updater writes meta.json before the task returns; wait for the new list
+            let mut after = env.searchable();
+            for _ in 0..200 {
+                if after.iter().map(|m| m.id()).collect::<BTreeSet<_>>() != before.iter().map(|(s, _, _)| SegmentId::from_uuid_string(s).unwrap()).collect::<BTreeSet<_>>() {
+                    break;
+                }
+                std::thread::sleep(Duration::from_millis(5));
+                after = env.searchable();
+            }
+            let after_ids: BTreeSet<String> = after.iter().map(|m| m.id().uuid_string()).collect();
+            let gone: Vec<&(String, SegDump, Vec<u64>)> = before.iter().filter(|(s, _, _)| !after_ids.contains(s)).collect();
+            let new: Vec<&SegmentMeta> = after.iter().filter(|m| !before.iter().any(|(s, _, _)| *s == m.id().uuid_string())).collect();
+            if gone.is_empty() || new.len() > 1 {
+                ctx.report.count("policy:merge-not-isolated");
+                continue;
+            }
+            let merged = new.first().map(|m| env.dump_meta(m).unwrap());
+            // source order = order of their first live doc in the merged segment
+            let mut order: Vec<(usize, &(String, SegDump, Vec<u64>))> = gone
+                .iter()
+                .map(|g| {
+                    let first = (0..g.1.max_doc as usize).find(|d| g.1.alive[*d]).map(|d| g.2[d]);
+                    let pos = match (&merged, first) {
+                        (Some((md, mu)), Some(uid)) => mu.iter().position(|u| *u == uid).filter(|p| md.alive[*p]).unwrap_or(usize::MAX),
+                        _ => usize::MAX,
+                    };
+                    (pos, *g)
+                })
+                .collect();
+            order.sort_by_key(|(p, _)| *p);
+            let sources: Vec<(&SegDump, Vec<bool>)> = order.iter().map(|(_, g)| (&g.1, g.1.alive.clone())).collect();
+            if !validate_merge(ctx, &sources, merged.as_ref().map(|m| &m.0), "policy-committed", &case) {
+                env.gate.with(|s| { s.gate = false; s.permits = 1000; });
+                return;
+            }
+        }
+        let committed = env.committed.clone();
+        if !check_index_content(ctx, &mut env, &committed, "after commit with merge policy", &case) {
+            env.gate.with(|s| { s.gate = false; s.permits = 1000; });
+            return;
+        }
+    }
+    env.gate.with(|s| { s.gate = false; s.permits = 1000; });
+    let Env { writer, .. } = env;
+    let _ = writer.wait_merging_threads();
+}
+
+const ACTIONS: [&str; 9] = ["delete-commit", "delete-source-commit", "rollback", "delete-all-commit", "overlapping-merge", "disjoint-merge", "gc", "add-commit", "delete-commit-twice"];
+
+/// C. a committed merge paused at its k-th storage operation while the main thread acts
+fn case_schedule(ctx: &mut Ctx, case_seed: u64, forced: Option<(usize, u64)>) {
+    let mut rng = Rng(case_seed);
+    let mut env = Env::new(&mut rng);
+    let n = 3 + rng.usize_below(3);
+    build_committed(&mut rng, &mut env, n);
+    let (action_ix, k) = forced.unwrap_or_else(|| (rng.usize_below(ACTIONS.len()), match rng.below(4) { 0 => rng.below(4), 1 => rng.below(40), 2 => 40 + rng.below(400), _ => rng.below(3000) }));
+    let action = ACTIONS[action_ix];
+    let case = case_json("schedule", case_seed, json!({"action": action_ix, "k": k}));
+    let metas = env.searchable();
+    if metas.len() < 2 {
+        ctx.report.count("schedule:too-few-segments");
+        return;
+    }
+    let mut ids: Vec<SegmentId> = metas.iter().map(|m| m.id()).collect();
+    ids.sort();
+    rng.shuffle(&mut ids);
+    let nsrc = 2 + rng.usize_below(ids.len() - 1);
+    let src_ids: Vec<SegmentId> = ids[..nsrc.min(ids.len())].to_vec();
+    let rest_ids: Vec<SegmentId> = ids[nsrc.min(ids.len())..].to_vec();
+    let before = env.dump_searchable().unwrap();
+    let find = |id: &SegmentId| before.iter().find(|(s, _, _)| *s == id.uuid_string()).unwrap();
+    let writes0 = env.gate.with(|s| { s.pause_at = Some(k); s.seen = 0; s.paused = false; s.resume = false; s.meta_writes });
+    let fut = env.writer.merge(&src_ids);
+    // paused at op k, or the merge had fewer than k operations and was already published
+    env.gate.wait(Duration::from_secs(20), |s| s.paused || s.meta_writes > writes0);
+    let paused = env.gate.with(|s| s.paused);
+    ctx.report.count(if paused { "schedule:paused" } else { "schedule:merge-finished-before-k" });
+    ctx.report.count(&format!("schedule-action:{action}"));
+    // ---- the concurrent action on the main thread -------------------------------------
+    let mut second: Option<tantivy::FutureResult<Option<SegmentMeta>>> = None;
+    let mut expect_discard = false;
+    match action {
+        "delete-commit" | "delete-commit-twice" => {
+            for _ in 0..(1 + rng.usize_below(4)) {
+                let (_, d, u) = find(rng.pick(&src_ids));
+                let live: Vec<u64> = (0..d.max_doc as usize).filter(|i| d.alive[*i]).map(|i| u[i]).collect();
+                if let Some(uid) = live.get(rng.usize_below(live.len().max(1))) {
+                    env.delete_uid(*uid);
+                }
+            }
+            env.commit();
+            if action == "delete-commit-twice" {
+                env.delete_grp(rng.below(5));
+                env.commit();
+            }
+        }
+        "delete-source-commit" => {
+            // every live doc of one source: the source vanishes from the register at commit
+            let (_, d, u) = find(&src_ids[0]);
+            for i in 0..d.max_doc as usize {
+                if d.alive[i] {
+                    env.delete_uid(u[i]);
+                }
+            }
+            env.commit();
+            expect_discard = paused;
+        }
+        "rollback" => {
+            env.add_docs(&mut rng, 3);
+            let (_, d, u) = find(&src_ids[0]);
+            if let Some(i) = (0..d.max_doc as usize).find(|i| d.alive[*i]) {
+                env.delete_uid(u[i]);
+            }
+            env.rollback();
+            expect_discard = paused;
+        }
+        "delete-all-commit" => {
+            env.writer.delete_all_documents().unwrap();
+            env.pending.clear();
+            env.log.push("delete_all".into());
+            env.commit();
+            expect_discard = paused;
+        }
+        "overlapping-merge" => {
+            let mut ids2: Vec<SegmentId> = vec![src_ids[0]];
+            ids2.extend(rest_ids.iter().take(1));
+            second = Some(env.writer.merge(&ids2));
+        }
+        "disjoint-merge" => {
+            if !rest_ids.is_empty() {
+                second = Some(env.writer.merge(&rest_ids));
+            }
+        }
+        "gc" => {
+            let _ = env.writer.garbage_collect_files().wait();
+        }
+        "add-commit" => {
+            let n = 1 + rng.usize_below(5);
+            env.add_docs(&mut rng, n);
+            env.commit();
+        }
+        _ => unreachable!(),
+    }
+    if let Some(f) = second.take() {
+        // let the second merge run to its end while the first is still paused
+        let _ = f.wait();
+    }
+    env.gate.with(|s| { s.resume = true; s.pause_at = None; });
+    let res = fut.wait();
+    ctx.report.count(if res.is_ok() { "schedule:first-merge-ok" } else { "schedule:first-merge-err" });
+    ctx.report.traces_validated_against_impl += 1;
+    // ---- afterwards: searcher content = sequential replay --------------------------------
+    let committed = env.committed.clone();
+    let after = env.searchable();
+    let case_ok = check_index_content(ctx, &mut env, &committed, &format!("after schedule {action} at k={k}"), &case);
+    let canon = format!("schedule|{action}|{k}|{}|{}", src_ids.len(), paused);
+    ctx.report.case(&canon, paused);
+    if !case_ok {
+        return;
+    }
+    // if the merged segment was published, validate it against the sources under the final alive sets
+    if let Ok(Some(mm)) = &res {
+        if let Some(m) = after.iter().find(|m| m.id() == mm.id()) {
+            let (md, _) = env.dump_meta(m).unwrap();
+            let sources: Vec<(&SegDump, Vec<bool>)> = src_ids.iter().map(|id| { let (_, d, u) = find(id); (d, alive_under(u, &d.alive, &committed)) }).collect();
+            validate_merge(ctx, &sources, Some(&md), &format!("schedule-{action}"), &case);
+            if expect_discard && action != "delete-source-commit" {
+                ctx.report.violation("oracle", "C04:stale-merge-applied", format!("a merge paused across {action} was still published"), case.clone());
+            }
+            ctx.report.count("schedule:merged-published");
+        } else {
+            ctx.report.count("schedule:merged-not-published");
+        }
+    } else {
+        ctx.report.count("schedule:merge-discarded-or-failed");
+    }
+    if ctx.report.samples.len() < 5 && paused {
+        ctx.report.sample(json!({"case": "schedule", "action": action, "paused_at_op": k, "sources": src_ids.len(), "first_merge": if res.is_ok() { "ok" } else { "err (discarded)" }, "log": env.log.iter().rev().take(6).collect::<Vec<_>>()}));
+    }
+}
+
+/// D. merges of UNCOMMITTED segments (cut inside a transaction), in-transaction deletes,
+/// followed by commit or rollback. Explicit merges are also replayed through the Lean updater
+/// model (`C04 sm`), which mirrors "the merged entry takes the delete cursor of the FIRST source".
+fn case_uncommitted(ctx: &mut Ctx, case_seed: u64) {
+    let mut rng = Rng(case_seed);
+    let mut env = Env::new(&mut rng);
+    let pre = rng.usize_below(3);
+    if pre > 0 {
+        build_committed(&mut rng, &mut env, pre);
+    }
+    let cut = 2 + rng.below(6) as u32;
+    let nseg = 2 + rng.usize_below(4);
+    let del_mode = rng.below(4); // 0 none, 1 between segments, 2 after all, 3 both
+    let finish = rng.below(3); // 0 commit, 1 rollback, 2 delete+commit
+    let by_policy = rng.chance(1, 3);
+    let case = case_json("uncommitted", case_seed, json!({"cut": cut, "nseg": nseg, "del_mode": del_mode, "finish": finish, "by_policy": by_policy}));
+    // ---- script for the Lean updater model ------------------------------------------------
+    let mut script: Vec<String> = vec![];
+    let mut seg_no: HashMap<String, usize> = HashMap::new();
+    let mut op: u64 = 1;
+    let doc_tok = |env: &Env, uids: &[u64], alive: &[bool]| -> String {
+        let v: Vec<String> = uids.iter().zip(alive).filter(|(_, a)| **a).map(|(u, _)| format!("{}.{}.{}", u, 1_000_000 + u, env.grp_of[u])).collect();
+        if v.is_empty() { "-".into() } else { v.join(",") }
+    };
+    for (sid, d, u) in env.dump_searchable().unwrap() {
+        let n = seg_no.len() + 1;
+        seg_no.insert(sid, n);
+        script.push(format!("seg:{n}:{}:c", doc_tok(&env, &u, &d.alive)));
+    }
+    let committed_op = 0u64;
+    if by_policy {
+        let mut policy = LogMergePolicy::default();
+        policy.set_min_num_segments(2);
+        policy.set_min_layer_size(10_000);
+        env.writer.set_merge_policy(Box::new(policy));
+    }
+    tantivy::verif::set_segment_cut_docs(cut);
+    let mut unc_metas: Vec<SegmentMeta> = vec![];
+    let mut script_complete = true;
+    let result = catch_unwind(AssertUnwindSafe(|| {
+        for _ in 0..nseg {
+            env.add_docs(&mut rng, cut as usize);
+            if by_policy {
+                std::thread::sleep(Duration::from_millis(4));
+            } else {
+                // wait until the worker has registered the segment it just cut
+                let mut found = false;
+                for _ in 0..10_000 {
+                    let (_, unc) = tantivy::verif::c04_registered_segment_metas(&env.writer);
+                    if let Some(m) = unc.iter().find(|m| !seg_no.contains_key(&m.id().uuid_string())) {
+                        found = true;
+                        let n = seg_no.len() + 1;
+                        seg_no.insert(m.id().uuid_string(), n);
+                        let (d, u) = env.dump_meta(m).unwrap();
+                        script.push(format!("seg:{n}:{}:u", doc_tok(&env, &u, &d.alive)));
+                        unc_metas.push(m.clone());
+                        break;
+                    }
+                    std::thread::sleep(Duration::from_millis(2));
+                }
+                if !found {
+                    // the worker was too slow (loaded machine): the script no longer mirrors the run
+                    script_complete = false;
+                }
+            }
+            if (del_mode == 1 || del_mode == 3) && rng.chance(2, 3) {
+                // a delete inside the transaction: hits older uncommitted docs (and committed ones)
+                op += 1;
+                if rng.chance(1, 2) {
+                    let g = rng.below(5);
+                    env.delete_grp(g);
+                    script.push(format!("del:{op}:{g}"));
+                } else {
+                    let u = 1 + rng.below(env.next_uid - 1);
+                    env.delete_uid(u);
+                    script.push(format!("del:{op}:{}", 1_000_000 + u));
+                }
+            }
+        }
+        if del_mode >= 2 {
+            let u = 1 + rng.below(env.next_uid - 1);
+            env.delete_uid(u);
+            op += 1;
+            script.push(format!("del:{op}:{}", 1_000_000 + u));
+        }
+    }));
+    tantivy::verif::set_segment_cut_docs(0);
+    if result.is_err() {
+        ctx.report.violation("oracle", "C04:panic", "panic while building uncommitted segments".into(), case.clone());
+        return;
+    }
+    let mut res: tantivy::Result<Option<SegmentMeta>> = Ok(None);
+    let mut srcs: Vec<(SegDump, Vec<u64>)> = vec![];
+    let mut ids: Vec<SegmentId> = vec![];
+    if !by_policy {
+        if unc_metas.len() < 2 {
+            ctx.report.count("uncommitted:too-few-segments");
+            return;
+        }
+        let mut metas = unc_metas.clone();
+        rng.shuffle(&mut metas);
+        let take = 2 + rng.usize_below(metas.len() - 1);
+        metas.truncate(take);
+        if rng.chance(1, 2) {
+            metas.sort_by_key(|m| seg_no[&m.id().uuid_string()]); // creation order
+        }
+        ids = metas.iter().map(|m| m.id()).collect();
+        srcs = metas.iter().map(|m| env.dump_meta(m).unwrap()).collect();
+        res = env.writer.merge(&ids).wait();
+        ctx.report.count(if res.is_ok() { "uncommitted:merge-ok" } else { "uncommitted:merge-err" });
+        if let Err(e) = &res {
+            ctx.report.violation("oracle", "C04:merge-failed", format!("explicit merge of {} uncommitted segments failed: {e}", ids.len()), case.clone());
+            return;
+        }
+        let nums: Vec<String> = ids.iter().map(|i| seg_no[&i.uuid_string()].to_string()).collect();
+        script.push(format!("start:0:{committed_op}:{}:{}", seg_no.len() + 1, nums.join(",")));
+        script.push("end:0".into());
+    }
+    match finish {
+        1 => {
+            env.rollback();
+            script.push("rollback".into());
+        }
+        2 => {
+            let u = 1 + rng.below(env.next_uid - 1);
+            env.delete_uid(u);
+            op += 1;
+            script.push(format!("del:{op}:{}", 1_000_000 + u));
+            env.commit();
+            op += 1;
+            script.push(format!("commit:{op}"));
+        }
+        _ => {
+            env.commit();
+            op += 1;
+            script.push(format!("commit:{op}"));
+        }
+    }
+    let committed = env.committed.clone();
+    let after = env.searchable();
+    // what the Lean updater model (first-source cursor) predicts for the published doc set
+    let mut model_pub: Option<BTreeSet<u64>> = None;
+    if !script_complete {
+        ctx.report.count("uncommitted:registration-timeout");
+    }
+    if !by_policy && script_complete {
+        let ans = ctx.model.ask(&format!("C04 sm {}", script.join(" ")));
+        match ans.strip_prefix("pub=").and_then(|r| r.split("/pend=").next()).and_then(crate::model::parse_nat_list) {
+            Some(v) => model_pub = Some(v.into_iter().collect()),
+            None => ctx.report.violation("model", "C04:sm-bad-answer", format!("updater model answered {ans}"), case.clone()),
+        }
+    }
+    let alt = model_pub.as_ref().map(|m| (m, "C04:explicit-merge-uncommitted-first-cursor"));
+    let how = if by_policy { "policy".to_string() } else { format!("explicit, source order {:?}", ids.iter().map(|i| seg_no[&i.uuid_string()]).collect::<Vec<_>>()) };
+    let ok = check_index_content_alt(ctx, &mut env, &committed, alt, &format!("after merge of uncommitted segments ({how}) and {}; script: {}", ["commit", "rollback", "delete+commit"][finish as usize], script.join(" ")), &case);
+    ctx.report.case(&format!("uncommitted|{cut}|{nseg}|{del_mode}|{finish}|{}|{by_policy}", ids.len()), true);
+    ctx.report.count(&format!("uncommitted-finish:{}", ["commit", "rollback", "delete-commit"][finish as usize]));
+    ctx.report.count(if by_policy { "uncommitted:by-policy" } else { "uncommitted:explicit" });
+    if !ok {
+        return;
+    }
+    if let Some(m) = &model_pub {
+        ctx.report.traces_validated_against_impl += 1;
+        if *m != committed {
+            // the implementation did the right thing although the model predicts the finding
+            ctx.report.violation("model", "C04:sm-vs-real", format!("updater model predicts {} published docs, implementation and sequential replay {}", m.len(), committed.len()), case.clone());
+        }
+    }
+    if by_policy {
+        let Env { writer, .. } = env;
+        let _ = writer.wait_merging_threads();
+        return;
+    }
+    if finish != 1 {
+        if let Ok(Some(mm)) = &res {
+            if let Some(m) = after.iter().find(|m| m.id() == mm.id()) {
+                let (md, _) = env.dump_meta(m).unwrap();
+                let sources: Vec<(&SegDump, Vec<bool>)> = srcs.iter().map(|(d, u)| (d, alive_under(u, &d.alive, &committed))).collect();
+                validate_merge(ctx, &sources, Some(&md), "explicit-uncommitted", &case);
+            }
+        }
+    } else if let Ok(Some(mm)) = &res {
+        if after.iter().any(|m| m.id() == mm.id()) {
+            ctx.report.violation("oracle", "C04:stale-merge-applied", "a merged uncommitted segment survived rollback".into(), case.clone());
+        }
+    }
+}
+
+fn run_case(ctx: &mut Ctx, kind: &str, case_seed: u64, params: &Value) {
+    let r = catch_unwind(AssertUnwindSafe(|| match kind {
+        "explicit" => case_explicit(ctx, case_seed),
+        "policy" => case_policy(ctx, case_seed),
+        "schedule" => {
+            let forced = match (params.get("action").and_then(|v| v.as_u64()), params.get("k").and_then(|v| v.as_u64())) {
+                (Some(a), Some(k)) => Some((a as usize, k)),
+                _ => None,
+            };
+            case_schedule(ctx, case_seed, forced)
+        }
+        "uncommitted" => case_uncommitted(ctx, case_seed),
+        _ => {}
+    }));
+    tantivy::verif::set_segment_cut_docs(0);
+    if let Err(e) = r {
+        let msg = e.downcast_ref::<String>().cloned().or_else(|| e.downcast_ref::<&str>().map(|s| s.to_string())).unwrap_or_default();
+        ctx.report.violation("oracle", "C04:panic", format!("panic in a {kind} case: {msg}"), case_json(kind, case_seed, params.clone()));
+    }
+}
 
 pub fn run(ctx: &mut Ctx) {
-    ctx.report.notes.push("C04: harness not built yet".into());
+    ctx.report.rule = "cases = merges validated as translations (sources -> merged segment) and forced schedules; \
+        non-trivial = a merge of >= 2 sources or with deleted docs, a schedule whose merge thread was really paused, \
+        every merge of uncommitted segments; distinct by (kind, source sizes/live counts, action, k)".into();
+    ctx.report.correspondence_obligations = vec![
+        "merged segment (SegmentReader dump) = concatenation of the live source docs in source order (harness)".into(),
+        "Lean mergeSpec on the dumped sources = harness concatenation".into(),
+        "Lean dump(mergeModel) = mergeSpec and = real merged segment; total_doc_freq list = real doc_freq list".into(),
+        "every published doc = the same doc in a never-merged reference index (stored bytes, norms, fast values, terms/tf/positions)".into(),
+        "published doc set after forced schedules = sequential replay".into(),
+    ];
+    if let Some(case) = ctx.replay.clone() {
+        let kind = case["kind"].as_str().unwrap_or("").to_string();
+        let seed: u64 = case["case_seed"].as_str().and_then(|s| s.parse().ok()).unwrap_or(0);
+        run_case(ctx, &kind, seed, &case["params"]);
+        return;
+    }
+    for _ in 0..ctx.budget(60, 2500) {
+        let s = ctx.rng.next_u64();
+        run_case(ctx, "explicit", s, &json!({}));
+    }
+    for _ in 0..ctx.budget(12, 300) {
+        let s = ctx.rng.next_u64();
+        run_case(ctx, "policy", s, &json!({}));
+    }
+    for _ in 0..ctx.budget(45, 1500) {
+        let s = ctx.rng.next_u64();
+        run_case(ctx, "schedule", s, &json!({}));
+    }
+    for _ in 0..ctx.budget(40, 1500) {
+        let s = ctx.rng.next_u64();
+        run_case(ctx, "uncommitted", s, &json!({}));
+    }
+    let p = ctx.report.distribution.get("translation_validation:programs").copied().unwrap_or(0);
+    let d = ctx.report.distribution.get("translation_validation:disagreements_checked").copied().unwrap_or(0);
+    ctx.report.notes.push(format!("translation_validation: programs={p} disagreements_checked={d}"));
 }
